@@ -73,6 +73,8 @@ let dispatch (fn : string) : jv -> jv = match fn with
   | "verify_apreq" -> verify_apreq_j
   | "spnego_serve" -> serve_j
   | "http_do" -> http_do_j
+  | "asrep_verify" -> asrep_verify_j
+  | "tgsrep_verify" -> tgsrep_verify_j
   | "spnego_accept" -> accept_sec_context_j
   | "send_to_kdc_visible" -> send_to_kdc_visible_j
   | _ -> failwith ("unknown model function " ^ fn)
